@@ -321,6 +321,25 @@ func runC18(w *World, r *Report) {
 	r.Borrow(w, runC03, map[string]string{"R9": "R6"})
 	// per-transaction state of the message handler is not shared between frames (C07.R5)
 	r.Borrow(w, c07FrameLocalActions, map[string]string{"R5": "R6"})
+	// the engine pointer is published only after Initialize() succeeded (C08.R4): transactions
+	// never see a half-built engine, and keep the old one when the build fails
+	r.Borrow(w, c08Publish, map[string]string{"R4": "R6"})
+	// every flow gets its own LunarContext (flow and transactional context); only the global
+	// context is created once and shared
+	if ncm := w.Fn("lunar/engine/streams/lunar-context", "NewContextManager"); ncm == nil {
+		r.Undec("R6", "NewContextManager", token.NoPos, "function not found")
+	} else {
+		ok, n := true, 0
+		for _, alt := range ReturnAlts(ncm, 0) {
+			n++
+			ac := litField(alt.Val, "adminContext")
+			c, isC := peel(unhelp(ac)).(*ssa.Call)
+			if ac == nil || !isC || !isCallTo(c, "lunar-context.NewLunarContext") || outermost(c.Parent()) != ncm || c.Parent() != ncm && helperFor(c.Parent()) == nil {
+				ok = false
+			}
+		}
+		r.Check(ok && n > 0, "R6", "NewContextManager/own-lunar-context-per-manager", ncm.Pos(), "adminContext of every new ContextManager is a NewLunarContext(..) made by that call (not cached, not created inside the sync.Once)")
+	}
 	r.Min("R1", 60)
 	r.Min("R2", 10)
 	r.Min("R3", 2)
